@@ -234,15 +234,15 @@ func (p *Program) stateTypeClosure() map[string]bool {
 			if x.Obj().Pkg() != nil {
 				key = strings.TrimPrefix(x.Obj().Pkg().Path(), ModPath+"/") + "." + key
 			}
-			if out[key] {
-				return
-			}
-			out[key] = true
 			if ta := x.TypeArgs(); ta != nil {
 				for i := 0; i < ta.Len(); i++ {
 					visit(ta.At(i))
 				}
 			}
+			if out[key] {
+				return
+			}
+			out[key] = true
 			visit(x.Underlying())
 		case *types.Struct:
 			for i := 0; i < x.NumFields(); i++ {
